@@ -195,6 +195,8 @@ def search(ctx):
             fails.append(f)
     for i in range(ctx.budget(6, 60)):
         f = ivector_oracle(ctx, i)
+        ctx.count("search:ivector")
+        ctx.case(["iv", i], nontrivial=True)
         if f and f["sig"] not in seen:
             seen.add(f["sig"])
             fails.append(f)
